@@ -60,6 +60,7 @@ package glyf
 //@   requires glyphOK(g) && len(buf) <= 1099511627776 && len(buf)%2 == 0
 //@   ensures len(res) == len(buf) + glyphLen(g)
 //@   ensures forall i int :: 0 <= i && i < len(buf) ==> res[i] == old(buf[i])
+//@   ensures ref(res) == ref(buf) || fresh(res)
 //@   modifies buf[*]
 //@   loop 0
 //@     invariant len(buf) == len(old(buf)) + 10 + compLen(d.Components, iter) && (ref(buf) == ref(old(buf)) || fresh(buf))
@@ -70,3 +71,41 @@ package glyf
 //@     decreases padLen(pre(len(buf))) - len(buf)
 //@     exit_assert len(buf) == padLen(pre(len(buf)))
 //@     exit_assert pre(len(buf)) == len(old(buf)) + rawLen(g)
+
+//@ spec sumLen(gg Glyphs, k int) int = ite(k <= 0, 0, sumLen(gg, k-1) + glyphLen(gg[k-1]))
+//@ spec locaOff(enc *Encoded, i int) int = ite(enc.LocaFormat == 0, 2*be16(enc.LocaData, 2*i), be32(enc.LocaData, 4*i))
+
+//@ func (gg Glyphs) Encode() (enc *Encoded)   props: C11 C01
+//@   requires forall i int :: 0 <= i && i < len(gg) ==> glyphOK(gg[i])
+//@   requires len(gg) <= 65536 && forall k int :: 0 <= k && k <= len(gg) ==> 0 <= sumLen(gg, k) && sumLen(gg, k) <= 4294967295
+//@   ensures enc != nil && fresh(enc) && (enc.LocaFormat == 0 || enc.LocaFormat == 1)
+//@   ensures len(enc.GlyfData) == sumLen(gg, len(gg))
+//@   ensures len(enc.LocaData) == ite(enc.LocaFormat == 0, 2, 4) * (len(gg) + 1)
+//@   ensures forall i int :: 0 <= i && i <= len(gg) ==> locaOff(enc, i) == sumLen(gg, i)
+//@   modifies nothing
+//@   loop 0
+//@     invariant len(offs) == n + 1 && n == len(gg) && fresh(offs) && off(offs) == 0
+//@     invariant forall j int :: 0 <= j && j <= iter ==> offs[j] == sumLen(gg, j) && 0 <= offs[j] && offs[j] <= offs[iter] && offs[j]%2 == 0
+//@   loop 1
+//@     invariant len(glyfData) == sumLen(gg, iter) && fresh(glyfData) && n == len(gg) && ref(glyfData) != ref(locaData)
+//@     invariant len(locaData) == ite(locaFormat == 0, 2, 4) * (n + 1) && fresh(locaData) && (locaFormat == 0 || locaFormat == 1)
+//@     invariant forall i int :: 0 <= i && i <= n ==> ite(locaFormat == 0, 2*be16(locaData, 2*i), be32(locaData, 4*i)) == sumLen(gg, i)
+
+//@ func decodeGlyphComposite(data []byte) (comp *CompositeGlyph, err error)   props: C02 C11
+//@   ensures err == nil ==> comp != nil
+//@   modifies nothing
+//@   loop 0
+//@     invariant isnil(components) || fresh(components)
+//@     decreases ite(done, 0, 1 + len(data))
+
+//@ func decodeGlyph(data []byte) (g *Glyph, err error)   props: C02 C11
+//@   modifies nothing
+
+//@ func Decode(enc *Encoded) (gg Glyphs, err error)   props: C02 C11
+//@   requires enc != nil
+//@   ensures err == nil ==> len(gg) >= 1
+//@   modifies nothing
+//@   loop 0
+//@     invariant len(gg) == numGlyphs && numGlyphs == len(offs) - 1 && fresh(gg) && off(gg) == 0
+//@     invariant forall i int :: 0 <= i && i < len(offs) ==> 0 <= offs[i] && offs[i] <= len(enc.GlyfData)
+//@     invariant forall i int :: 0 <= i && i < len(offs) - 1 ==> offs[i] <= offs[i+1]
